@@ -176,6 +176,9 @@ def api_entry(prog):
             return args
         port = PortModel(alloc_may_fail=True)
         E = Engine(prog, port=port)
+        # (the 16-slot scans of the table API are unrolled rather than summarised where that stays small: a pointer latched in
+        #  one iteration and stored through after the loop then keeps its concrete slot)
+        E.max_loop_states = 400
         # destroying a table frees a caller-owned heap block
         I, outs = run_entry(prog, AUTOMATA_UNIT, name, setup, engine=E, name=name)
         merge_obs(obs, obs_of(I))
